@@ -59,6 +59,7 @@ impl<'names> GlifParser<'names> {
     ) -> Result<Glyph, GlifLoadError> {
         let mut seen_advance = false;
         let mut seen_lib = false;
+        let mut seen_note = false;
         let mut seen_outline = false;
 
         loop {
@@ -82,10 +83,13 @@ impl<'names> GlifParser<'names> {
                     b"note" if self.version == VERSION_1 => {
                         return Err(ErrorKind::UnexpectedV1Element("note").into());
                     }
-                    b"note" if self.glyph.note.is_some() => {
+                    b"note" if seen_note => {
                         return Err(ErrorKind::DuplicateElement("note").into());
                     }
-                    b"note" => self.parse_note(reader, buf)?,
+                    b"note" => {
+                        seen_note = true;
+                        self.parse_note(reader, buf)?;
+                    }
                     _other => return Err(ErrorKind::UnexpectedElement.into()),
                 },
                 // The rest are expected to be empty element tags (exception: outline) with attributes.
